@@ -1,7 +1,8 @@
 """A small translator from a subset of Rust to Gallina, for pure decision functions.
 
 Supported: a function body that is
-  * a sequence of `let x = e;`, `let (a, b) = e;` and `if cond { return e; }` statements followed by an expression, or
+  * a sequence of `let x = e;`, `let (a, b) = e;`, `if cond { return e; }` and `if let Some(x) = e { such statements }`
+    (falling through when nothing returns) followed by an expression, or
   * `match *self { Path::A => e, Path::B => e }`
 (a procedure over one `&mut` accumulator - `return;`, final `*acc += e;` - becomes a function returning the accumulator)
 with expressions built from identifiers, numeric literals, field access (`.x` / `.y` of points, the fields of the
@@ -225,6 +226,8 @@ class P:
                     pass
                 elif name == "lerp" and a[1] == "pt" and len(args) == 2:
                     a = ("(plerp %s %s %s)" % (a[0], self.coerce(args[0], "pt")[0], self.coerce(args[1], "Q")[0]), "pt")
+                elif name in ("min", "max") and a[1] == "Q" and len(args) == 1:
+                    a = ("(%s %s %s)" % ("Qmin" if name == "min" else "Qmax", a[0], self.coerce(args[0], "Q")[0]), "Q")
                 elif name == "cross" and a[1] == "pt" and len(args) == 1:
                     a = ("(cross %s %s)" % (a[0], self.coerce(args[0], "pt")[0]), "Q")
                 elif (a[1], name) in self.methods:
@@ -409,9 +412,60 @@ class P:
             if len(tys) != 1:
                 raise Unsupported("arms of different types")
             return ("match %s with %s end" % (scrut, " ".join("| %s => %s" % (p, e[0]) for p, e in arms)), tys.pop())
-        stmts = []        # ("let", pattern text, expr) | ("ret", cond, expr)
+        stmts = self.stmt_list()
+        if self.acc and self.peek() == ("op", "*") and self.peek(1) == ("id", self.acc):
+            # the final `*acc += e;` of a procedure over a `&mut` accumulator
+            self.eat()
+            self.eat()
+            self.eat("op", "+")
+            self.eat("op", "=")
+            e = self.coerce(self.expr(), self.env[self.acc])
+            self.eat("op", ";")
+            last = ("(%s + %s)%s" % (self.acc, e[0], "%Z" if e[1] == "Z" else ""), e[1])
+        else:
+            last = self.expr()
+        self.eat("op", "}")
+        if self.peek()[0] != "eof":
+            raise Unsupported("trailing tokens")
+        return self.fold(stmts, last[0], last[1])
+
+    def fold(self, stmts, out, ty):
+        """the statements in front of a result expression, innermost last"""
+        for st in reversed(stmts):
+            if st[0] == "let":
+                out = "let %s := %s in\n  %s" % (st[1], st[2][0], out)
+            elif st[0] == "ret":
+                ty = self.join(st[2][1], ty)
+                out = "if %s then %s else\n  %s" % (st[1], st[2][0], out)
+            else:       # ("iflet", name, scrutinee, inner statements): falls through to what follows when nothing returns
+                inner, ty = self.fold(st[3], out, ty)
+                out = "match %s with\n  | Some %s => %s\n  | None => %s\n  end" % (st[2][0], st[1], inner, out)
+        return (out, ty)
+
+    def stmt_list(self):
+        """(let x = e; | let (a, b) = e; | if c { return e; } | if let Some(x) = e { statements })*"""
+        stmts = []        # ("let", pattern text, expr) | ("ret", cond, expr) | ("iflet", name, expr, statements)
         while True:
-            if self.peek() == ("id", "if"):
+            if self.peek() == ("id", "if") and self.peek(1) == ("id", "let"):
+                self.eat()
+                self.eat()
+                self.eat("id", "Some")
+                self.eat("op", "(")
+                n = self.eat("id")[1]
+                self.eat("op", ")")
+                self.eat("op", "=")
+                e = self.expr()
+                if not (isinstance(e[1], tuple) and e[1][0] == "opt" and e[1][1] is not None):
+                    raise Unsupported("if let Some against " + str(e[1]))
+                self.eat("op", "{")
+                saved_env, saved_subst = dict(self.env), dict(self.subst)
+                self.subst.pop(n, None)
+                self.env[n] = e[1][1]
+                inner = self.stmt_list()
+                self.eat("op", "}")
+                self.env, self.subst = saved_env, saved_subst
+                stmts.append(("iflet", self.local(n), e, inner))
+            elif self.peek() == ("id", "if"):
                 # `if c { return e; }` is a statement; any other `if` here is the final expression
                 j = self.i + 1
                 depth = 0
@@ -464,28 +518,7 @@ class P:
                     stmts.append(("let", self.local(n), e))
             else:
                 break
-        if self.acc and self.peek() == ("op", "*") and self.peek(1) == ("id", self.acc):
-            # the final `*acc += e;` of a procedure over a `&mut` accumulator
-            self.eat()
-            self.eat()
-            self.eat("op", "+")
-            self.eat("op", "=")
-            e = self.coerce(self.expr(), self.env[self.acc])
-            self.eat("op", ";")
-            last = ("(%s + %s)%s" % (self.acc, e[0], "%Z" if e[1] == "Z" else ""), e[1])
-        else:
-            last = self.expr()
-        self.eat("op", "}")
-        if self.peek()[0] != "eof":
-            raise Unsupported("trailing tokens")
-        out, ty = last[0], last[1]
-        for st in reversed(stmts):
-            if st[0] == "let":
-                out = "let %s := %s in\n  %s" % (st[1], st[2][0], out)
-            else:
-                ty = self.join(st[2][1], ty)
-                out = "if %s then %s else\n  %s" % (st[1], st[2][0], out)
-        return (out, ty)
+        return stmts
 
     def join(self, a, b):
         if a == b:
